@@ -447,7 +447,8 @@ class Sem(object):
         return any(v < 0 for _n, v in e.values)
 
     def byte_order_of(self, f, sdef):
-        return f.byte_order or sdef.byte_order or self.module.byte_order or "Null"
+        own = getattr(sdef, "module", None)
+        return f.byte_order or sdef.byte_order or (own.byte_order if own is not None else self.module.byte_order) or "Null"
 
     def type_units(self, t, parent_unit, field_units):
         """Size of one value of type t in the parent's addressable units (for array elements)."""
